@@ -18,6 +18,10 @@ RECURSIVE Dec(_)
 Dec(n) == IF n < 10 THEN <<Chars[Code("0") + n]>> ELSE Append(Dec(n \div 10), Chars[Code("0") + (n % 10)])
 DecForms(n) == {Dec(n), <<"0">> \o Dec(n), <<"0", "0">> \o Dec(n)}
 Values == {0, 1, 2, 9, 10, 11, 99, 100, 1000000}
+\* numbers beyond 64 bits and zero-padding beyond 18 characters (serial numbers, time stamps): still compared by value
+Rep(c, n) == [k \in 1..n |-> c]
+BigPairs == {<<Rep("9", 18), <<"1">> \o Rep("0", 18)>>, <<<<"1">> \o Rep("0", 18), <<"1">> \o Rep("0", 19)>>, <<Rep("9", 19), <<"1">> \o Rep("0", 19)>>,
+             <<Rep("0", 22) \o <<"4", "2">>, <<"4", "3">>>>, <<<<"7">> \o Rep("1", 20), <<"7">> \o Rep("1", 19) \o <<"2">>>>}
 DecPrefixes == {<<>>, <<"S", "_">>, <<"S", "U", "P", "E", "R", "_">>, <<"c">>, <<"I">>, <<"X">>, <<"c", "h", "r", "-">>, <<"a", ".", "b">>}
 DecSuffixes == {<<>>, <<"_">>, <<"A">>, <<"_", "u", "n", "l", "o", "c", "_", "1">>, <<"I">>, <<".", "x">>}
 Numerals == <<<<"I">>, <<"I", "I">>, <<"I", "I", "I">>, <<"I", "V">>>>
@@ -50,7 +54,7 @@ ScenInit ==
   CASE Fam = "F1" -> x \in NamesUpTo(MaxLen) /\ y = 0 /\ z = 0
     [] Fam = "F2" -> x \in Pool2 /\ y \in Pool2 /\ x # y /\ z = 0
     [] Fam = "F3" -> x \in DecPrefixes /\ y \in DecSuffixes
-                     /\ z \in UNION {{<<d1, d2>> : d1 \in DecForms(v[1]), d2 \in DecForms(v[2])} : v \in {v \in Values \X Values : v[1] < v[2]}}
+                     /\ z \in UNION {{<<d1, d2>> : d1 \in DecForms(v[1]), d2 \in DecForms(v[2])} : v \in {v \in Values \X Values : v[1] < v[2]}} \cup BigPairs
     [] Fam = "F4" -> x \in NumPrefixes /\ y \in NumSuffixes /\ z \in {v \in (1..4) \X (1..4) : v[1] < v[2]}
     [] Fam = "F5" -> x \in ChrPrefixes /\ y \in {v \in ChrNums \X ChrNums : v[1] < v[2]}
                      /\ z \in {<<>>, <<1, 2, 10>>} \cup {<<a>> : a \in UnlocNums} \cup {<<v[1], v[2]>> : v \in {w \in UnlocNums \X UnlocNums : w[1] < w[2]}}
